@@ -312,7 +312,7 @@ pub fn docs_nested() -> Vec<String> {
     }
   }
   // wide groups: three group choices, more than three entries (the printer switches layout at both thresholds)
-  for w in ["a: int // b: tstr // c: bool", "int // tstr // bool", "a: int, b: tstr, c: bool, d: nil", "a: 1, b: 2 // c: 3, d: 4 // e: 5", "a: int, b: tstr, c: bool, d: nil // e: int"] {
+  for w in ["a: int // b: tstr // c: bool", "int // tstr // bool", "a: int, b: tstr, c: bool, d: nil", "a: 1, b: 2 // c: 3, d: 4 // e: 5", "a: int, b: tstr, c: bool, d: nil // e: int", "a: 1, b: 2, c: 3, d: 4 // e: 5 // f: 6"] {
     for b in ["{ _ }", "[ _ ]", "&( _ )"] {
       out.push(format!("r = {}\n", b.replace('_', w)));
     }
